@@ -16,7 +16,7 @@ SERIES_KEYS = {
     "spike": ["inp"], "roc": ["inp", "t"], "flat": ["inp", "t"], "atten": ["inp", "t"],
     "density": ["inp", "z"], "pressure": ["inp"], "speed": ["lon", "lat", "t"],
 }
-SAFE_CARRIERS = ["nd_f8", "list_none", "list_nan", "series", "tuple_none"]
+SAFE_CARRIERS = ["nd_f8", "list_none", "list_nan", "series", "tuple_none", "ma_junk"]
 SAFE_TCARRIERS = ["dt64ns", "epoch_int", "dtindex", "dt64s"]
 
 
